@@ -51,7 +51,7 @@ func claimsOf(p string) map[string]bool {
 
 // generate produces the scenario of run i for a property.
 func generate(prop, tier string, seed uint64, run int) *Scenario {
-	allShapes := []int{0, 0, 1, 1, 2, 3, 4}
+	allShapes := []int{0, 0, 1, 1, 2, 3, 4, 6}
 	pick := int(seed>>7) % 100
 	if os.Getenv("VERIF_DEBUG_FAMILY") == "reuse" {
 		return genReuse(prop, seed, run)
@@ -61,6 +61,11 @@ func generate(prop, tier string, seed uint64, run int) *Scenario {
 	}
 	switch prop {
 	case "C01":
+		if pick >= 88 {
+			// watched paths that are replaced, renamed and deleted and then added again:
+			// events of the re-added path (seed C01-i)
+			return genLifecycle(prop, seed, run, tier, 0, 0.1)
+		}
 		return genMix(prop, seed, run, mixOpts{lagfree: 0.3, apiChurn: 0.12, spellings: pick < 25, shapes: allShapes, overflow: 0.12, maxOps: 36, watchFiles: 0.3, worldTasks: 3, withOps: 0.0, burst: 0.04, bigBurst: tier == "thorough"})
 	case "C02":
 		if pick >= 88 {
@@ -76,7 +81,7 @@ func generate(prop, tier string, seed uint64, run int) *Scenario {
 			// recursive watches: names below a renamed sub-directory and its siblings (seed C08-h)
 			return genRecurse(prop, seed, run, tier)
 		}
-		return genMix(prop, seed, run, mixOpts{lagfree: 0.3, apiChurn: 0.15, spellings: true, shapes: []int{1, 1, 1, 2, 3, 4, 0}, maxOps: 30, watchFiles: 0.4, worldTasks: 2})
+		return genMix(prop, seed, run, mixOpts{lagfree: 0.3, apiChurn: 0.15, spellings: true, shapes: []int{1, 1, 1, 2, 3, 4, 0, 6}, maxOps: 30, watchFiles: 0.4, worldTasks: 2})
 	case "C04":
 		// thorough tier: two of every three runs walk through the enumeration
 		// (813 615 sequences) until it is exhausted, the third samples
@@ -98,6 +103,10 @@ func generate(prop, tier string, seed uint64, run int) *Scenario {
 	case "C13":
 		if pick >= 85 {
 			return genReuse(prop, seed, run)
+		}
+		if pick >= 78 {
+			// recursive watches: a reader that gives up on its own, then Close (seed C13-h)
+			return genRecurse(prop, seed, run, tier)
 		}
 		if pick < 20 {
 			return genChurn(prop, seed, run, tier, tier == "thorough" && pick < 1)
